@@ -96,6 +96,7 @@ def check(ctx, cal, kind, exp, s):
     from dateparser.calendars.hijri import HijriCalendar
     from dateparser.calendars.jalali import JalaliCalendar
 
+    ctx.remember(check, cal, kind, exp, s)
     try:
         r = (JalaliCalendar if cal == "jalali" else HijriCalendar)(s).get_date()
         r = r["date_obj"] if r else None
@@ -220,6 +221,7 @@ def run_shard(ctx, desc):
                 run_jalali(ctx, desc)
             else:
                 run_hijri(ctx, desc)
+        ctx.reask()
     finally:
         ac.stop()
     for k, v in ac.counts.items():
